@@ -744,7 +744,7 @@ impl Check for C08 {
         "exploration"
     }
     fn rule(&self) -> String {
-        "inbound byte strings are fed to the real client (a) right after CONNACK, with a QoS 1 publish, a QoS 2 publish, a SUBSCRIBE and an UNSUBSCRIBE in flight, and (b) in place of the CONNACK; an independent three-valued classifier (MustAccept with fields / MustReject with the rule / DontCare) judges every frame: MustAccept => no error and the fields observable unchanged (delivery, handle completion, Rejected(code), negotiated limits), MustReject => Peer(InvalidPacket), handle dead, no partial effect, DontCare => clean outcome only; panics (index, overflow, unwrap, debug_assert) anywhere are violations. Inputs: EXHAUSTIVE all byte strings of length <= 2 (quick) / <= 3 (thorough) in both contexts and all 256 first bytes x 9 remaining-length encodings; GENERATIVE valid packets of all ten server types with random legal property sets and boundary sizes, then 13 mutation operators; random read chunkings; PUBLISH packets with remaining length 127/128/16383/16384/2097151/2097152 in a buffer they fit exactly, amply, or miss by one byte; torn-packet-then-reconnect: k bytes of a valid packet (or of the CONNACK) read, connection dropped / forgotten / connect() given up, same Session connected again, the new CONNACK and the next frame judged. A frame that fits the buffer but which the client gave up on after reading part of it is judged by the call that gave up. Non-trivial iff a frame was classified MustAccept with >=1 property or MustReject; distinct = (context, class, rule/type) x abstract trace.".into()
+        "inbound byte strings are fed to the real client (a) right after CONNACK, with a QoS 1 publish, a QoS 2 publish, a SUBSCRIBE and an UNSUBSCRIBE in flight, and (b) in place of the CONNACK; an independent three-valued classifier (MustAccept with fields / MustReject with the rule / DontCare) judges every frame: MustAccept => no error and the fields observable unchanged (delivery, handle completion, Rejected(code), negotiated limits), MustReject => Peer(InvalidPacket), handle dead, no partial effect, DontCare => clean outcome only; panics (index, overflow, unwrap, debug_assert) anywhere are violations. Inputs: EXHAUSTIVE all byte strings of length <= 2 (quick) / <= 3 (thorough) in both contexts and all 256 first bytes x 9 remaining-length encodings; GENERATIVE valid packets of all ten server types with random legal property sets and boundary sizes, then 13 mutation operators; random read chunkings; one generated stream in three stalls at a random offset (inside a header, a length, a body, between two packets), the poll() waiting there is given up once or twice and later calls carry on; PUBLISH packets with remaining length 127/128/16383/16384/2097151/2097152 in a buffer they fit exactly, amply, or miss by one byte; torn-packet-then-reconnect: k bytes of a valid packet (or of the CONNACK) read, connection dropped / forgotten / connect() given up, same Session connected again, the new CONNACK and the next frame judged. A frame that fits the buffer but which the client gave up on after reading part of it is judged by the call that gave up. Non-trivial iff a frame was classified MustAccept with >=1 property or MustReject; distinct = (context, class, rule/type) x abstract trace.".into()
     }
     fn assumptions(&self) -> Vec<String> {
         vec![
